@@ -458,3 +458,58 @@ Arguments Done {ist}. Arguments Waiting {ist}. Arguments Escaped {ist}. Argument
 
 Definition messages_of (evs : list event) : list (bool * list N) :=
   flat_map (fun e => match e with EvMsg t d => [(t, d)] | _ => [] end) evs.
+
+(* ------------------------------------------------------------------ *)
+(* Negotiated parameters -> compressor / decompressor configuration     *)
+(* (WebSocketProtocol13._create_compressors, _get_compressor_options,   *)
+(*  _PerMessageDeflateCompressor/_Decompressor.__init__)                *)
+(* ------------------------------------------------------------------ *)
+Inductive pkey := KServerNoCtx | KClientNoCtx | KServerBits | KClientBits | KOther.
+(* the value of a parameter: None (no value), a decimal integer string, or other text *)
+Inductive pval := PNone | PInt (n : N) | PBad.
+
+Definition pkey_eqb (a b : pkey) : bool :=
+  match a, b with
+  | KServerNoCtx, KServerNoCtx | KClientNoCtx, KClientNoCtx | KServerBits, KServerBits
+  | KClientBits, KClientBits | KOther, KOther => true
+  | _, _ => false
+  end.
+
+(* agreed_parameters: a dict given as its item list (keys distinct) *)
+Definition agreed := list (pkey * pval).
+
+Fixpoint pget (k : pkey) (a : agreed) : option pval :=
+  match a with
+  | [] => None
+  | (k', v) :: a' => if pkey_eqb k k' then Some v else pget k a'
+  end.
+Definition pmem (k : pkey) (a : agreed) : bool := match pget k a with Some _ => true | None => false end.
+
+(* _get_compressor_options(side, agreed): (persistent, max_wbits); None = ValueError from int() *)
+Definition side_options (client : bool) (a : agreed) : option (bool * N) :=
+  let persistent := negb (pmem (if client then KClientNoCtx else KServerNoCtx) a) in
+  match pget (if client then KClientBits else KServerBits) a with
+  | None | Some PNone => Some (persistent, 15)          (* zlib.MAX_WBITS *)
+  | Some (PInt n) => Some (persistent, n)
+  | Some PBad => None
+  end.
+
+Definition wbits_in_range (w : N) : bool := (8 <=? w) && (w <=? 15).
+(* zlib (1.2.9 and later) refuses windowBits 8 for a raw deflate *compressor*: trusted fact *)
+Definition zlib_compressobj_accepts (w : N) : bool := 9 <=? w.
+
+(* the (persistent, max_wbits) of the compressor and of the decompressor; None = ValueError *)
+Definition create_compressors (client : bool) (a : agreed) : option ((bool * N) * (bool * N)) :=
+  if pmem KOther a then None
+  else
+    match side_options client a with
+    | None => None
+    | Some (cp, cw) =>
+        if negb (wbits_in_range cw) then None
+        else if cp && negb (zlib_compressobj_accepts cw) then None   (* persistent: compressobj() now *)
+        else
+          match side_options (negb client) a with
+          | None => None
+          | Some (dp, dw) => if negb (wbits_in_range dw) then None else Some ((cp, cw), (dp, dw))
+          end
+    end.
